@@ -40,7 +40,7 @@ def site_name(i):
     return chr(65 + i) if i < 26 else f'S{i}'
 
 
-def gen_topo(rng, n, extra, maxlen_km=180, fused_p=0.1, amp_p=0.15):
+def gen_topo(rng, n, extra, maxlen_km=180, fused_p=0.1, amp_p=0.15, cut=False):
     """compact description of a ROADM mesh: n sites (trx + roadm each), a random spanning tree + `extra` more lines,
     every line has 1-3 spans per direction with independent lengths (multiples of 60 m)"""
     names = [site_name(i) for i in range(n)]
@@ -68,6 +68,11 @@ def gen_topo(rng, n, extra, maxlen_km=180, fused_p=0.1, amp_p=0.15):
                 ln = 60 * rng.randint(2500, 7000)             # 150 .. 420 km: auto-design splits it
             out.append(ln)
         return out
+    if cut and len(pairs) > 1:
+        # drop one or two lines (possibly disconnecting the mesh: NO_PATH must then be reported)
+        for _ in range(rng.randint(1, 2)):
+            if len(pairs) > 1:
+                pairs.discard(rng.choice(sorted(pairs)))
     lines = []
     for (a, b) in sorted(pairs):
         ab, ba = spans(), spans()
@@ -218,7 +223,9 @@ def gen_request(rng, N, rid, allow_bad=True):
     nodes, style = [], 'none'
     r = rng.random()
     sp = simple_paths_sites(topo, a, b, rng, limit=30)
-    if r < 0.2 or not sp:
+    if not sp:
+        r = rng.choice([0.1, 0.3, 0.8])                       # disconnected pair: only lists that need no path
+    if r < 0.2:
         style = 'none'
     elif r < 0.35:
         style = 'roadms_random'
@@ -233,6 +240,10 @@ def gen_request(rng, N, rid, allow_bad=True):
         if rng.random() < 0.2:
             rng.shuffle(nodes)
             style = 'roadms_on_path_shuffled'
+        elif rng.random() < 0.15 and nodes:
+            k = rng.randrange(len(nodes))                     # the same hop twice in a row / again later
+            nodes.insert(rng.choice([k, k + 1, len(nodes)]), nodes[k])
+            style = 'roadms_on_path_dup'
     elif r < 0.65:
         style = 'explicit_full'                               # one line element of every OMS of a path, in order
         p = rng.choice(sp)
@@ -348,3 +359,329 @@ def drive_request(N, rq):
     except Exception as e:  # noqa
         obs['rev_exc'] = f'{type(e).__name__}'
     return obs
+
+
+# ------------------------------------------------------------------ Coq terms
+def name_ids(N, names):
+    """uids -> node ids; a name that is not in the topology becomes a distinct negative id"""
+    bad = {}
+    out = []
+    for u in names:
+        if u in N.id:
+            out.append(N.id[u])
+        else:
+            out.append(bad.setdefault(u, -1 - len(bad)))
+    return out
+
+
+def coq_bools(flags):
+    return listlit(['true' if f == 'STRICT' else 'false' for f in flags])
+
+
+def coq_obs(obs):
+    if obs['out'] == 'P':
+        rv = f'(Some {listlit(map(str, obs["rev"]))})' if 'rev' in obs else 'None'
+        return f'(OPath {listlit(map(str, obs["path"]))} {rv})'
+    if obs['out'].startswith('B:'):
+        return f'(OBlock {strlit(obs["out"][2:])})'
+    return 'ONone'
+
+
+def coq_rq(N, rq, obs):
+    return (f'mkRq {N.id[rq["src"]]} {N.id[rq["dst"]]} {listlit(map(zlit, name_ids(N, rq["nodes"])))} '
+            f'{coq_bools(rq["loose"])} {coq_obs(obs)}')
+
+
+def coq_net_term(N, pairs):
+    return (f'run_net {N.coq_graph()} {N.coq_kinds()} {N.coq_oms()} {N.coq_fibres()} '
+            f'{listlit([coq_rq(N, rq, obs) for rq, obs in pairs])}')
+
+
+def parse_fields(txt):
+    d = {}
+    for f in txt.split('|'):
+        k, _, v = f.partition('=')
+        d[k] = v
+    return d
+
+
+# ------------------------------------------------------------------ judgement
+def oms_chain_loops(N, inc_ids):
+    """does the hop-by-hop OMS sequence named by the include list come back to a ROADM it already left/reached?"""
+    seq = []
+    for x in inc_ids:
+        o = N.oms_of[x] if 0 <= x < len(N.oms_of) else None
+        if o is not None and o not in seq:
+            seq.append(o)
+    ends = []
+    for o in seq:
+        els = N.oms_els[o]
+        if not ends:
+            ends.append(els[0])
+        ends.append(els[-1])
+    return len(set(ends)) != len(ends)
+
+
+def judge(ctx, N, rq, obs, line, case):
+    """compare one request's observation with the Coq verdicts; returns nothing, reports through ctx"""
+    f = parse_fields(line)
+    c = f['c']
+    flags = {'style': rq['style']}
+    # ---- route-list clean-up (correspondence)
+    if c.startswith('E:'):
+        mtype = c[2:].split(':')[0]
+        if obs['out'] != f'E:{mtype}':
+            ctx.corr_break('corr:Route.clean_route', f'clean-up: gnpy {obs["out"]}, model {c}', case, impl=obs['out'], model=c)
+        else:
+            ctx.count('clean_rejected')
+        return
+    if obs['out'].startswith('E:') and 'clean_nodes' not in obs:
+        ctx.corr_break('corr:Route.clean_route', f'clean-up: gnpy {obs["out"]}, model accepts', case, impl=obs['out'], model=c)
+        return
+    mine = '[' + ','.join(str(N.id[u]) for u in obs['clean_nodes']) + ']' + ''.join(
+        'S' if x == 'STRICT' else 'L' for x in obs['clean_loose'])
+    if mine != c:
+        ctx.corr_break('corr:Route.clean_route', 'cleaned route lists differ', case, impl=mine, model=c)
+        return
+    inc_ids = [N.id[u] for u in obs['clean_nodes']]
+    m, s, v, r = f['m'], f['s'], f['v'], f['r']
+    explicit = m.startswith('X')
+    flags.update(explicit=explicit, explicit_equal=m.endswith('='), loop=oms_chain_loops(N, inc_ids), spec=s, model=m)
+    if obs['out'].startswith('E:'):
+        ctx.violation('exception', f'{obs["out"]}: {obs.get("exc", "")} (neither a path nor a blocking reason)', case,
+                      flags=flags)
+        return
+    # ---- oracle: the specification (proved reference + proved validator) against what gnpy returned
+    if s.startswith('P'):
+        opt = int(s[1:-1])
+        unsat = s.endswith('U')
+        ctx.count('spec_path_loose_fallback' if unsat else 'spec_path')
+        if obs['out'] != 'P':
+            ctx.violation('blocked_but_route_exists', f'gnpy {obs["out"]}, a route of weight {opt} cm exists', case,
+                          flags=flags)
+        else:
+            ok_eff, ok_plain, isp, w, fl, optfl, optw = v.split(',')
+            flags.update(ok_eff=ok_eff, ok_plain=ok_plain, ispart=isp)
+            if ok_plain != 'T':
+                ctx.violation('invalid_path', 'returned path is not a loop-free walk from source to destination', case,
+                              flags=flags, path=obs['path'])
+            elif ok_eff != 'T':
+                ctx.violation('includes_not_crossed', 'returned path does not cross the include list in order', case,
+                              flags=flags, path=obs['path'])
+            elif int(w) != opt:
+                ctx.violation('not_shortest', f'weight {w} cm, optimum {opt} cm'
+                              + (' (LOOSE list cannot be met: unconstrained optimum expected)' if unsat else ''), case,
+                              flags=flags, path=obs['path'])
+            elif int(fl) > int(optfl) + len(N.nodes):
+                ctx.violation('fibre_length_not_minimal', f'fibre {fl} cm, minimum {optfl} cm', case, flags=flags)
+            if obs.get('reason'):
+                ctx.violation('reason_on_path', f'path returned together with blocking_reason {obs["reason"]}', case,
+                              flags=flags)
+    else:
+        reason = s[1:-1]
+        ctx.count('spec_' + reason)
+        if obs['out'] == 'P':
+            ok_eff, ok_plain, isp = v.split(',')[:3]
+            flags.update(ok_eff=ok_eff, ok_plain=ok_plain, ispart=isp)
+            if ok_plain != 'T':
+                ctx.violation('invalid_path', f'returned path is not a loop-free walk (and the request should be blocked: {reason})',
+                              case, flags=flags, path=obs['path'])
+            else:
+                ctx.violation('path_instead_of_block', f'specification: blocked {reason}; gnpy returned a path', case,
+                              flags=flags, path=obs['path'])
+        elif obs['out'] != f'B:{reason}':
+            ctx.violation('wrong_block_reason', f'gnpy {obs["out"]}, expected {reason}', case, flags=flags)
+    # ---- correspondence: faithful model of compute_constrained_path
+    if m.startswith('X'):
+        if not (obs['out'] == 'P' and m.endswith('=')):
+            ctx.corr_break('corr:Route.explicit_path', 'model returns an explicit path, gnpy something else', case,
+                           impl=obs.get('path', obs['out']), model=m)
+        ctx.count('model_explicit')
+    elif m.startswith('P'):
+        if obs['out'] != 'P' or int(v.split(',')[3]) != int(m[1:]):
+            ctx.corr_break('corr:Route.model_ccp', 'search outcome differs', case,
+                           impl=obs['out'] + (':' + v.split(',')[3] if obs['out'] == 'P' else ''), model=m)
+    elif m.startswith('B'):
+        if obs['out'] != 'B:' + m[1:]:
+            ctx.corr_break('corr:Route.model_ccp', 'block outcome differs', case, impl=obs['out'], model=m)
+    else:
+        ctx.corr_break('corr:Route.model_ccp', 'model error', case, impl=obs['out'], model=m)
+    # ---- reverse path
+    if obs['out'] == 'P' and v.split(',')[1] == 'T':
+        wf, same, rok, rsites = r.split(',')
+        ctx.count('rev_wf_' + wf)
+        if 'rev' not in obs:
+            ctx.violation('reverse_exception', f'find_reversed_path raised {obs.get("rev_exc")}', case, flags=flags)
+        else:
+            if rok != 'T' or rsites != 'T':
+                ctx.violation('reverse_sites', 'reverse path is not a route visiting the same sites in reverse', case,
+                              flags=flags, rev=obs['rev'])
+            if same != 'T':
+                ctx.corr_break('corr:Route.find_reversed_path', 'reverse path differs from the model', case,
+                               impl=obs['rev'], model=same)
+            if wf != 'T':
+                ctx.corr_break('corr:Route.rev_wf', 'hypothesis of reversed_sites does not hold on an observed valid path',
+                               case, impl=obs['path'], model=wf)
+
+
+def match_f11(v):
+    """explicit include list whose OMS chain loops: explicit_path returns a broken 'path'"""
+    fl = v.get('flags', {})
+    return (v['key'] == 'invalid_path' and fl.get('explicit') and fl.get('explicit_equal') and fl.get('loop')
+            and fl.get('ok_plain') == 'F')
+
+
+def match_f11b(v):
+    """explicit_path returns the path spelled by the line elements although it does not cross the include list in order"""
+    fl = v.get('flags', {})
+    return (v['key'] in ('includes_not_crossed', 'path_instead_of_block', 'not_shortest') and fl.get('explicit')
+            and fl.get('explicit_equal') and fl.get('ok_plain') == 'T' and fl.get('ispart') == 'F')
+
+
+MATCHERS = {'F11-explicit-loop': match_f11, 'F11b-explicit-skips-includes': match_f11b}
+
+
+# ------------------------------------------------------------------ large meshes: dual-potential certificate
+BIG = 10 ** 15
+
+
+def dijkstra(adj, s):
+    import heapq
+    dist = [None] * len(adj)
+    prev = [None] * len(adj)
+    dist[s] = 0
+    h = [(0, s)]
+    while h:
+        d, u = heapq.heappop(h)
+        if d > dist[u]:
+            continue
+        for v, w in adj[u]:
+            if dist[v] is None or d + w < dist[v]:
+                dist[v] = d + w
+                prev[v] = u
+                heapq.heappush(h, (d + w, v))
+    return dist, prev
+
+
+def run_big(ctx, rng, nnets, fixed=None):
+    terms, meta = [], []
+    for i in range(nnets if fixed is None else len(fixed)):
+        if fixed is None:
+            n = rng.randint(12, 40)
+            topo = gen_topo(rng, n, rng.randint(2, n // 2 + 2))
+        else:
+            topo = fixed[i]['topo']
+        N = Net(topo)
+        if not N.exact:
+            ctx.count('skipped_inexact_weights')
+            continue
+        cases, keep = [], []
+        for k in range(6 if fixed is None else len(fixed[i]['requests'])):
+            if fixed is None:
+                a, b = rng.sample(N.sites, 2)
+                rq = {'id': str(k), 'src': f'trx {a}', 'dst': f'trx {b}', 'nodes': [], 'loose': [], 'style': 'big_none',
+                      'bidir': False}
+            else:
+                rq = fixed[i]['requests'][k]
+            obs = drive_request(N, rq)
+            case = {'big': True, 'topo': topo, 'requests': [rq]}
+            ctx.case(case, True)
+            ctx.count('big_requests')
+            if obs['out'] != 'P':
+                ctx.violation('big_no_path', f'connected mesh, gnpy {obs["out"]}', case)
+                continue
+            s, t = N.id[rq['src']], N.id[rq['dst']]
+            dist, prev = dijkstra(N.adj, s)
+            pi = [BIG if d is None else d for d in dist]
+            q = [t]
+            while q[-1] != s:
+                q.append(prev[q[-1]])
+            q.reverse()
+            cases.append(f'({s},{t},{listlit(map(str, pi))},{listlit(map(str, obs["path"]))})')
+            keep.append((case, obs, q, dist[t]))
+        if cases:
+            terms.append(f'run_big {N.coq_graph()} {listlit(cases)}')
+            meta.append((N, keep))
+    lines = common.coq_eval('C11', 'Prelude Model.Route Run.C11', terms, per_file=1, tag='big')
+    for (N, keep), line in zip(meta, lines):
+        for (case, obs, q, dt), res in zip(keep, line.split(';')):
+            ok, cert, w = res.split(',')
+            if ok != 'T':
+                ctx.violation('invalid_path', 'large mesh: returned path is not a loop-free walk between the ends', case,
+                              path=obs['path'])
+            elif cert != 'T':
+                if int(w) > dt:
+                    ctx.violation('not_shortest', f'large mesh: weight {w} cm, a walk of weight {dt} cm exists', case,
+                                  path=obs['path'], shorter=q)
+                else:
+                    ctx.corr_break('corr:Route.potential_ok', 'certificate rejected although weights agree', case,
+                                   impl=w, model=cert)
+            else:
+                ctx.count('big_certified_optimal')
+
+
+# ------------------------------------------------------------------ run
+def gen_case(rng, nreq=8):
+    n = rng.choice([2, 3, 3, 4, 4, 5, 5, 6, 6, 7, 8])
+    extra = rng.randint(0, n if n < 7 else 4)
+    topo = gen_topo(rng, n, extra, cut=rng.random() < 0.12)
+    return topo
+
+
+def run(ctx):
+    rng = ctx.rng
+    ctx.proof = common.check_props('C11')
+    ctx.rule = ('random ROADM meshes (2-8 sites, 1-3 spans per direction, splits/fused/user amplifiers) auto-designed by '
+                'gnpy x 8 random requests each (no list / ROADM lists / line-element lists spelling a whole path, a part, '
+                'a loop / shuffled / with transceivers and unknown names; STRICT, LOOSE and mixed) driven through '
+                'correct_json_route_list + compute_path_dsjctn + find_reversed_path; judged in Coq by route_ok and '
+                'model_route over the complete enumeration; 12-40 site meshes judged by potential_ok; a case is '
+                'non-trivial when it carries an include list; distinct by content hash')
+    nets = []
+    if ctx.replay:
+        rec = json.load(open(ctx.replay))
+        nets = [rec['case']]
+    else:
+        for fpath in sorted(glob.glob(os.path.join(common.VERIF, 'corpus', 'C11', '*.json'))):
+            c = json.load(open(fpath))
+            c['_corpus'] = os.path.basename(fpath)
+            nets.append(c)
+        for _ in range(ctx.scale(110, 1500)):
+            nets.append({'topo': gen_case(rng), 'requests': None})
+    terms, meta = [], []
+    for c in nets:
+        if c.get('big'):
+            continue
+        N = Net(c['topo'])
+        if not N.exact:
+            ctx.count('skipped_inexact_weights')
+            continue
+        reqs = c['requests'] if c['requests'] is not None else [gen_request(rng, N, k) for k in range(8)]
+        pairs = []
+        for rq in reqs:
+            obs = drive_request(N, rq)
+            pairs.append((rq, obs))
+            ctx.count('style_' + rq['style'])
+            ctx.count('outcome_' + obs['out'][:1])
+            ctx.case({'topo': c['topo'], 'requests': [rq]}, bool(rq['nodes']))
+        ctx.count('networks')
+        ctx.count('sites_%d' % c['topo']['n'])
+        terms.append(coq_net_term(N, pairs))
+        meta.append((N, c, pairs))
+    lines = common.coq_eval('C11', 'Prelude Model.Route Run.C11', terms, per_file=ctx.scale(8, 12))
+    for (N, c, pairs), line in zip(meta, lines):
+        parts = line.split(';')
+        for (rq, obs), txt in zip(pairs, parts):
+            case = {'topo': c['topo'], 'requests': [rq]}
+            judge(ctx, N, rq, obs, txt, case)
+    if not ctx.replay:
+        run_big(ctx, rng, ctx.scale(10, 80))
+    elif nets[0].get('big'):
+        run_big(ctx, rng, 1, fixed=nets)
+    ctx.assumptions += [
+        'graph, element kinds and OMS lists handed to Coq are read from the designed networkx graph / build_oms_list '
+        'of gnpy itself (successor order, edge weights x100 rounded to integer cm; exactness checked per network)',
+        'optimality on 12-40 site meshes is judged by the dual-potential certificate (potentials computed by an '
+        'untrusted Dijkstra in the harness, checked in Coq); include lists are exercised on the 2-8 site meshes only',
+    ]
+    return common.finish(ctx, MATCHERS)
